@@ -52,9 +52,16 @@ class C07Episode(Episode):
         path = os.path.join(d, 'circus.ini')
         self.ini_state = {'path': path, 'ws': ws, 'socks': socks}
         self.write_c07_ini()
+        if self.cfg.get('httpd'):
+            import sys
+            import types
+            # (only imported by the daemon to see that it is installed)
+            sys.modules.setdefault('circusweb', types.ModuleType('circusweb'))
         a = self.world.build_from_ini(path)
         self.socks = {}
-        for sc in self.cfg['sockets']:
+        for sc in list(self.cfg['sockets']) + (
+                [{'name': 'circushttpd', 'kind': 'inet'}]
+                if self.cfg.get('httpd') else []):
             key = [k for k in a.sockets
                    if k.lower() == sc['name'].lower()][0]
             sk = a.sockets[key]
@@ -75,9 +82,11 @@ class C07Episode(Episode):
         from .. import ini
         st = self.ini_state
         with open(st['path'], 'w') as f:
-            f.write(ini.render(circus={'check_delay': self.cfg.get(
-                'check_delay', 1.0)}, watchers=st['ws'],
-                sockets=st['socks']))
+            c = {'check_delay': self.cfg.get('check_delay', 1.0)}
+            if self.cfg.get('httpd'):
+                c.update(httpd='True', httpd_host='127.0.0.1', httpd_port=0)
+            f.write(ini.render(circus=c, watchers=st['ws'],
+                               sockets=st['socks']))
 
     def op_c07edit(self, i, op):
         """the file is edited: a watcher's section changes (reloadconfig
@@ -458,6 +467,10 @@ class C07(Prop):
                     wc['opts']['stdin_socket'] = \
                         wc['opts']['stdin_socket'].lower()
             reqs = self.REQS + ['reloadconfig', 'reloadconfig']
+            if rng.random() < 0.25:
+                # the built-in web console: one more managed socket, named
+                # in no section of the file
+                cfg['httpd'] = True
         ops = gen.gen_history(rng, cfg, n, reqs, None, quiet_p=0.6)
         out = []
         for op in ops:
